@@ -191,7 +191,7 @@ def part_f_bulk(ctx):
     """production threshold, no hook"""
     items = ctx.pick(
         [dict(cap0=70000, n=400000, nkeys=3000, seed=ctx.seed + 1, pattern="random"),
-         dict(cap0=66000, n=300000, nkeys=50000, seed=ctx.seed + 2, pattern="random"),
+         dict(cap0=66000, n=300000, nkeys=70000, seed=ctx.seed + 2, pattern="random"),
          dict(cap0=70000, n=300000, nkeys=200, seed=ctx.seed + 3, pattern="periodic")],
         [dict(cap0=c, n=n, nkeys=k, seed=ctx.seed + i, pattern=p)
          for i, (c, n, k, p) in enumerate([(70000, 2000000, 3000, "random"), (66000, 1500000, 60000, "random"),
